@@ -3,6 +3,7 @@
    all notification lists by [fold_replay]. *)
 From Slsk Require Import Base.Tac.
 From Slsk Require Import C19.Spec C19.Model.
+From SlskGen Require Import RoomGen.
 
 (* ---------------------------------------------------------------------------------------- *)
 (* containers *)
@@ -414,9 +415,13 @@ Qed.
 
 Lemma wf_state_apply : forall me bl s m, wf_state s -> wf_state (fst (apply_msg me bl s m)).
 Proof.
-  intros me bl s m H. destruct m; cbn [apply_msg fst];
+  intros me bl s m H. destruct m; cbn [apply_msg fst]; unfold on_room_tickers, on_privileged_users;
   try match goal with |- context [blocked_room ?b ?x] => destruct (blocked_room b x) end;
-  try match goal with |- context [blocked_private ?b ?x] => destruct (blocked_private b x) end; cbn [fst]; try assumption;
+  try match goal with |- context [blocked_private ?b ?x] => destruct (blocked_private b x) end; cbn [fst];
+  repeat match goal with
+  | |- context [if ?b then _ else _] => is_var b; destruct b
+  | |- context [match ?o with Some _ => _ | None => _ end] => is_var o; destruct o
+  end; cbn beta; try assumption;
   try (apply wf_state_room_list; assumption);
   repeat first [ apply wf_state_upd_room; [intros; wfr|] | apply wf_state_touch | apply wf_state_upd_user
                | apply wf_state_fold_touch | apply (wf_state_fold_touch _ (@fst name text)) | apply wf_state_fold_join ]; try assumption.
@@ -481,6 +486,12 @@ Local Arguments aset : simpl never.
 Local Arguments adel : simpl never.
 Local Arguments aof : simpl never.
 
+Ltac split_binders :=
+  repeat match goal with
+  | |- context [if ?b then _ else _] => is_var b; destruct b
+  | |- context [match ?o with Some _ => _ | None => _ end] => is_var o; destruct o
+  end.
+
 Ltac split_blocked :=
   try match goal with |- context [blocked_room ?b ?x] => destruct (blocked_room b x) eqn:?Hb end;
   try match goal with |- context [blocked_private ?b ?x] => destruct (blocked_private b x) eqn:?Hb end.
@@ -500,7 +511,8 @@ Ltac room_step m :=
     unfold join_final, room_obj; change isin with mem; proj; rewrite ?mem_fold_sadd, ?mem_sof; cbn [andb];
     try match goal with |- context [mem ?u (map fst ?l)] => destruct (mem u (map fst l)) end; fin
   | .. ];
-  cbn [apply_msg fst]; split_blocked; cbn [fst]; push_rooms; rewrite ?room_obj_upd; try reflexivity;
+  cbn [apply_msg fst]; unfold on_room_tickers, on_privileged_users; split_blocked; cbn [fst]; split_binders; cbn beta;
+  push_rooms; cbn [rooms]; rewrite ?room_obj_upd; try reflexivity;
   try (match goal with |- context [Nat.eqb ?r ?r0] => destruct (Nat.eqb_spec r r0); [subst r0|] end; cbn [andb]; try reflexivity);
   change isin with mem; fin.
 
@@ -540,7 +552,8 @@ Section Steps.
       match goal with |- context [Nat.eqb ?r ?r0] => destruct (Nat.eqb_spec r r0); [subst|] end;
       unfold join_final; cbn; destruct owner; reflexivity
     | .. ];
-    cbn [apply_msg fst suppressed about]; split_blocked; cbn [fst]; push_rooms; rewrite ?aget_upd_rooms; try reflexivity;
+    cbn [apply_msg fst suppressed about]; unfold on_room_tickers, on_privileged_users; split_blocked; cbn [fst]; split_binders; cbn beta;
+    push_rooms; cbn [rooms]; rewrite ?aget_upd_rooms; try reflexivity;
     try (match goal with |- context [Nat.eqb ?r ?r0] => destruct (Nat.eqb_spec r r0); [subst r0|] end; try reflexivity);
     repeat (unfold room_obj; rewrite ?aget_upd_rooms, ?Nat.eqb_refl);
     destruct (aget r (rooms s)) as [[p0 us0 j0 tk0 mb0 o0 op0]|]; reflexivity.
@@ -556,7 +569,7 @@ Section Steps.
     | cbn [apply_msg fst]; rewrite user_obj_join_room;
       match goal with |- context [last_of ?u ?l] => destruct (last_of u l) as [[? ?]|] end; reflexivity
     | .. ];
-    cbn [apply_msg fst]; split_blocked; cbn [fst];
+    cbn [apply_msg fst]; unfold on_room_tickers, on_privileged_users; split_blocked; cbn [fst]; split_binders; cbn beta;
     repeat (rewrite ?user_obj_fold_touch, ?(user_obj_fold_touch _ (@fst name text)), ?user_obj_priv_users,
                     ?user_obj_upd_room, ?user_obj_touch, ?user_obj_upd_user); try reflexivity;
     change isin with mem;
@@ -564,7 +577,7 @@ Section Steps.
     | |- context [Nat.eqb ?a ?b] => destruct (Nat.eqb_spec a b); subst
     | |- context [if ?b then _ else _] => is_var b; destruct b
     | |- context [match ?o with Some _ => _ | None => _ end] => is_var o; destruct o
-    end; try reflexivity.
+    end; try reflexivity; try (exfalso; congruence).
 
   Lemma status_step_ok : forall s m u, q_status (fst (apply_msg me bl s m)) u = status_step u (q_status s u) m.
   Proof. intros s m u. unfold q_status, status_step. user_step m. Qed.
